@@ -156,6 +156,8 @@ def rand_dag_edges(rng, n, shape=None, p=None):
             E.add((i, i + 1))
         E.add((0, n - 1))
     else:
+        if shape == "gnp_dense":
+            p = rng.choice([.7, .85, 1.0])
         p = p if p is not None else rng.choice([.25, .4, .6])
         for i in range(n):
             for j in range(i + 1, n):
@@ -281,6 +283,9 @@ def bn_to_pgmpy(case, cls=None):
         m.add_edge(names[u], names[v])
     for c in case["cpds"]:
         m.add_cpds(cpd_to_pgmpy(case, c))
+    if case.get("latents"):
+        # declared latent variables change nothing about the distribution: inference must treat them as ordinary hidden nodes
+        m.latents = set(m.latents) | {names[v] for v in case["latents"]}
     return m
 
 
